@@ -132,8 +132,17 @@ class Emitter:
             ax.append(f"(assert (=> (and (> {base} 0.0) (< {base} 1.0) (< {ex} 0.0)) (> {s} 1.0)))")
             ax.append(f"(assert (=> (and (>= {base} 1.0) (< {ex} 0.0)) (<= {s} 1.0)))")
             ax.append(f"(assert (=> (= {base} 1.0) (= {s} 1.0)))")
+            ax.append(f"(assert (=> (and (> {base} 0.0) (= {ex} 0.0)) (= {s} 1.0)))")
         elif kind == "exp":
             ax.append(f"(assert (> {s} 0.0))")
+        elif kind == "log":
+            a = args[0]
+            if a.is_const() and a.const_value() > 0:
+                import math
+
+                x = math.log(float(a.const_value()))
+                lo, hi = Fraction(math.nextafter(math.nextafter(x, -math.inf), -math.inf)), Fraction(math.nextafter(math.nextafter(x, math.inf), math.inf))
+                ax.append(f"(assert (and (> {s} {_num(lo)}) (< {s} {_num(hi)}))) ; log of a constant, enclosure of 2 ulp")
         elif kind == "ceil":
             a = self.need_v(args[0])
             ax.append(f"(assert (and (>= {s} {a}) (< {s} (+ {a} 1.0))))")
@@ -145,13 +154,34 @@ class Emitter:
                 self.need_node(a.n)
 
     def text(self, asserts: list[str], logic="QF_NRA") -> str:
-        # resolve atoms transitively
-        while self._pending_atoms:
-            sid = self._pending_atoms.pop()
-            if sid in self._atoms_done:
-                continue
-            self._atoms_done.add(sid)
-            self._atom_axioms(sid)
+        # resolve atoms transitively; exponentials vs logarithms: for b > 1,  e * log b >= log r  <=>  b^e >= r  (r > 0)
+        done_pairs = getattr(self, "_pow_log_pairs", set())
+        self._pow_log_pairs = done_pairs
+        while True:
+            while self._pending_atoms:
+                sid = self._pending_atoms.pop()
+                if sid in self._atoms_done:
+                    continue
+                self._atoms_done.add(sid)
+                self._atom_axioms(sid)
+            pows = [sid for sid in self._atoms_done if P.SYMS[sid].get("atom") == "pow" and P.SYMS[sid]["args"][0].is_const() and P.SYMS[sid]["args"][0].const_value() > 1]
+            logs = [sid for sid in self._atoms_done if P.SYMS[sid].get("atom") == "log"]
+            for ps in pows:
+                base = P.SYMS[ps]["args"][0]
+                logb = [ls for ls in logs if (P.SYMS[ls]["args"][0] - base).p.is_zero()]
+                if not logb:
+                    continue
+                for ls in logs:
+                    r = P.SYMS[ls]["args"][0]
+                    if r.is_const() or (ps, ls) in done_pairs:
+                        continue
+                    done_pairs.add((ps, ls))
+                    e = self.need_v(P.SYMS[ps]["args"][1])
+                    rt = self.need_v(r)
+                    self.lines_axioms.append(f"(assert (=> (and (> {rt} 0.0) (>= (* {e} s{logb[0]}) s{ls})) (>= s{ps} {rt}))) ; b^e >= r")
+                    self.lines_axioms.append(f"(assert (=> (and (> {rt} 0.0) (<= (* {e} s{logb[0]}) s{ls})) (<= s{ps} {rt}))) ; b^e <= r")
+            if not self._pending_atoms:
+                break
         out = [f"(set-logic {logic})"]
         for sid in sorted(self.syms):
             out.append(f"(declare-const s{sid} Real)")
